@@ -1247,7 +1247,14 @@ def crawl_and_compare(ctx, n_random: int, rule_lists: int, extra_cases: Sequence
 
 
 def replay_case(ctx, obj) -> Tuple[Optional[Dict[str, Any]], Optional[Dict[str, str]]]:
-    inp = obj.get("input") or obj.get("request") or obj
+    inp = obj.get("input") or obj.get("request")
+    if inp is None and obj.get("disagreements"):
+        d = obj["disagreements"][0]
+        print("stream:", d.get("stream"), "|", d.get("model"), "|", d.get("impl"))
+        inp = d.get("request")
+    if not isinstance(inp, dict) or "units" not in inp:
+        print("nothing to replay in this file:", list(obj)[:8], obj.get("broken"))
+        return None, None
     case = case_from_payload(inp)
     print("case:", case["name"], "privacy:", case["privacy"], "opts:", case["opts"])
     for u in case["units"]:
